@@ -25,6 +25,8 @@ WORKER_TIMEOUT = {"quick": 600, "thorough": 3600}
 
 TOKEN_OF = {"int": "CONSTANT", "float": "CONSTANT", "hexfloat": "CONSTANT", "char": "CHAR_CONST", "str": "STRING"}
 CONTEXTS = [("", ""), ("= ", ";"), ("(", ")"), ("[", "]"), ("-", "\n"), (", ", ","), (" ", " ")]
+# another constant glued to the right (no blank): each is a token of its own (`1'0'` is an integer and a character)
+GLUED = [("", "'0'"), ("", "'0\\\n'"), ("", "'a'"), ("", "'\\n'"), ("", "'0??/\n'"), ("", "\"s\""), ("'1'", ""), ("", "'\\x41'")]
 
 
 # left contexts that reach further back: words and characters earlier on the line or in the file that have nothing to
@@ -140,6 +142,8 @@ def run_shard(spec):
                     ctxs = ctxs[:1]
                 if order == "forward" and k % 4 == 0:
                     ctxs = list(ctxs) + [FAR_CONTEXTS[(k // 4) % len(FAR_CONTEXTS)]]
+                if order == "forward" and k % 3 == 0 and fam.split(":")[0] in ("int", "float", "hexfloat"):
+                    ctxs = list(ctxs) + [GLUED[(k // 3) % len(GLUED)]]
                 for ctx in ctxs:
                     sh.case(ctx[0] + sp + ctx[1])
                     judge_valid(sh, sp, fam, ctx)
